@@ -76,7 +76,8 @@ def _sched(monitor_for, quick=(150, 3), thorough=(2500, 6), extra=None, **genkw)
         if not genkw:
             # structured families every scheduler property is exercised on besides the random scenarios
             n_mix, n_ms = (25, 2) if o.tier == "quick" else (600, 4)
-            scs = [g(rng) for _ in range(n_mix) for g in (scorr.gen_fanin_scenario, scorr.gen_diamond_scenario, scorr.gen_group_mix_scenario, scorr.gen_ahead_scenario)]
+            scs = [g(rng) for _ in range(n_mix) for g in (scorr.gen_fanin_scenario, scorr.gen_diamond_scenario, scorr.gen_group_mix_scenario, scorr.gen_ahead_scenario,
+                                                            scorr.gen_future_shift_scenario)]
             res2 = scorr.run_sched_suite(driver, rng, len(scs), n_ms, name="families", monitor=monitor_for, scenarios=scs)
             o.suites.append(res2)
             o.violations.extend(res2["violations"])
